@@ -443,6 +443,11 @@ def verify_function(contract, registry, only_cases=None):
                 binding[pname] = fn.defaults[pname]
             else:
                 raise ValueError("case %s: no value for parameter %s" % (label, pname))
+        hidden = {}  # *args / **kwargs of the function under contract: called without extra arguments
+        if node.args.vararg is not None:
+            hidden[node.args.vararg.arg] = ()
+        if node.args.kwarg is not None:
+            hidden[node.args.kwarg.arg] = st.alloc(E.HDict())
         # snapshots of heap arguments for old_<name>
         olds = {}
         memo = {}
@@ -451,7 +456,7 @@ def verify_function(contract, registry, only_cases=None):
                 olds["old_" + pname] = deep_snapshot(v, st, memo)
         init_env = dict(binding)
         init_env.update(olds)
-        sid = eng.new_scope(st, dict(binding))
+        sid = eng.new_scope(st, dict(binding, **hidden))
         fr = E.Frame(sid, fn, qual)
         eng.frames.append(fr)
         n_cases_obl = len(rep.obligations)
